@@ -25,6 +25,7 @@ import (
 )
 
 const (
+	ExitBlocked    = 95 // a monitored call made no progress while the process used no CPU: blocked for good
 	ExitCPUBudget  = 97 // a monitored call exceeded its CPU work bound
 	ExitHarnessBug = 98
 	bitmapBits     = 1 << 26
@@ -140,12 +141,34 @@ func processCPU() int64 {
 	return ru.Utime.Nano() + ru.Stime.Nano()
 }
 
+// ProcessCPU is the CPU time (user + system) this process has used so far, in nanoseconds.
+func ProcessCPU() int64 { return processCPU() }
+
+// Blocked reports a call that will never return: stacks to stderr, reserved exit code. The driver turns it into
+// a violation attributed to the journalled case (death/blocked/<first repo frame>).
+func Blocked(what string) {
+	buf := make([]byte, 1<<20)
+	n := runtime.Stack(buf, true)
+	fmt.Fprintf(os.Stderr, "VERIF-BLOCKED %s\n%s\n", what, buf[:n])
+	os.Exit(ExitBlocked)
+}
+
 func (r *Runner) cpuMonitor() {
+	var armedDeadline, cpuAtArm int64
+	var armedAt time.Time
 	for {
 		time.Sleep(25 * time.Millisecond)
 		dl := r.cpuDeadline.Load()
 		if dl == 0 {
+			armedDeadline = 0
 			continue
+		}
+		if dl != armedDeadline {
+			armedDeadline, cpuAtArm, armedAt = dl, processCPU(), time.Now()
+		} else if time.Since(armedAt) > 30*time.Second && processCPU()-cpuAtArm < int64(50*time.Millisecond) {
+			// not slow but stuck: half a minute of wall time in which the whole process used next to no CPU.
+			// A loaded machine slows a runnable process down, it does not bring its CPU use to zero.
+			Blocked(fmt.Sprintf("case=%v: the monitored call has not returned after %s and the process used %dms of CPU in that time", r.curCase.Load(), time.Since(armedAt).Round(time.Second), (processCPU()-cpuAtArm)/1e6))
 		}
 		if processCPU() > dl {
 			buf := make([]byte, 1<<20)
